@@ -1199,7 +1199,7 @@ func (e *Env) resolveType(ce *CE) (types.Type, error) {
 	}
 	switch s {
 	case "[]byte":
-		return types.NewSlice(types.Typ[types.Uint8]), nil
+		return types.NewSlice(types.Universe.Lookup("byte").Type()), nil
 	case "error":
 		return types.Universe.Lookup("error").Type(), nil
 	case "string":
